@@ -47,6 +47,9 @@ STRENGTHENED = {
     "C01-F": "strengthened from the seed's notes before its first run: reference semantics for printing a function value (R12) + such programs under all flags",
     "C09-E": "strengthened from the seed's notes before its first run: nested modifiers with exactly the entitled arguments",
     "C12-E": "strengthened from the seed's notes before its first run: conditionless loops with x then X (statements and a chain element)",
+    # fourth wave (file-focused: each agent owned one source file and chose the property)
+    "F_main-C": "missed: C11 drove transpile+exec on a prepared Context, never the entry point that parses the inputs -> end-to-end section: main.execute_vyxal (offline and online) x every list of <=3 input texts incl. ones evaluating to 0 / [] / \"\" x every sequence of reading operations",
+    "F_LazyList-C": "missed: every printed lazy list was either fresh or fully produced -> programs that look at a lazy value through a second reference (duplicate, register, variable, if) and then print it, under all flag sets",
     "C14-C": "missed: the item at index n was read from the cache after has_ind -> a third way of taking the prefix: real indexing result[n]",
 }
 
